@@ -207,6 +207,14 @@ func verifyFunctionOpt(P *Program, fn *ssa.Function, props []string, opt func(*E
 		penv := e.contractEnv(fn, ct, args, entry, o.st, entry.brk)
 		e.bindResults(penv, fn, ct, o.ret)
 		e.evalLets(penv, ct)
+		// prev(e) in an ensures clause: e at the head of the last loop iteration of this path
+		// (the entry state if the path never entered a cut loop)
+		if o.st.lastHead != nil {
+			penv.prev = o.st.lastHead
+		} else {
+			es := entry
+			penv.prev = &es
+		}
 		s := o.st
 		for i, en := range ct.Ensures {
 			penv.where = en.Line
@@ -241,10 +249,12 @@ func verifyFunctionOpt(P *Program, fn *ssa.Function, props []string, opt func(*E
 			for _, it := range ct.GhostKeys {
 				want[e.ghostKeyOf(kenv, it)] = true
 			}
+			var wl []string
 			for k := range want {
-				if strings.HasPrefix(k, "nsend") {
-					want["nsocksend"] = true
-				}
+				wl = append(wl, k)
+			}
+			for _, k := range expandGhostNames(wl) {
+				want[k] = true
 			}
 			seen := map[string]bool{}
 			if s.gepoch != entry.gepoch {
@@ -453,6 +463,9 @@ func (e *Exec) applyContract(fr *Frame, st State, fn *ssa.Function, ct *FuncCont
 	e.bindResults(penv, fn, ct, ret)
 	e.evalLets(penv, ct)
 	for _, en := range ct.Ensures {
+		if usesPrev(en.X) {
+			continue // a claim about the callee's last loop iteration: of no use to callers
+		}
 		penv.where = en.Line
 		penv.cur = st
 		g := penv.evalBool(en.X)
@@ -692,6 +705,8 @@ func (e *Exec) enterLoopHeader(fr *Frame, st State, b *ssa.BasicBlock, prev *ssa
 			e.noDecr = append(e.noDecr, fmt.Sprintf("%s loop %d", shortFn(fr.fn.String()), ord))
 		}
 		fr.loops[b] = cut
+		hs := cut.headState
+		st.lastHead = &hs
 		return st, false
 	}
 	// back edge: preserve
@@ -734,8 +749,8 @@ func (e *Exec) enterLoopHeader(fr *Frame, st State, b *ssa.BasicBlock, prev *ssa
 		for _, k := range lc.GhostKinds {
 			want[k] = true
 		}
-		if want["nsend"] {
-			want["nsocksend"] = true
+		for _, k := range expandGhostNames(lc.GhostKinds) {
+			want[k] = true
 		}
 		seen := map[string]bool{}
 		for g := st.ghost; g != nil && g != cut.headState.ghost; g = g.prev {
@@ -901,4 +916,36 @@ func (e *Exec) determinedCheck(fn *ssa.Function, ct *FuncContract, args []Val, e
 			}
 		}
 	}
+}
+
+func usesPrev(x Expr) bool {
+	switch t := x.(type) {
+	case EUnary:
+		return usesPrev(t.X)
+	case EBinary:
+		return usesPrev(t.X) || usesPrev(t.Y)
+	case ECall:
+		if id, ok := t.Fun.(EIdent); ok && id.Name == "prev" {
+			return true
+		}
+		for _, a := range t.Args {
+			if usesPrev(a) {
+				return true
+			}
+		}
+		return usesPrev(t.Fun)
+	case EIndex:
+		return usesPrev(t.X) || usesPrev(t.I)
+	case ESlice:
+		return usesPrev(t.X) || (t.Lo != nil && usesPrev(t.Lo)) || (t.Hi != nil && usesPrev(t.Hi))
+	case ESel:
+		return usesPrev(t.X)
+	case EAssert:
+		return usesPrev(t.X)
+	case EQuant:
+		return usesPrev(t.Lo) || usesPrev(t.Hi) || usesPrev(t.Body)
+	case ECond:
+		return usesPrev(t.C) || usesPrev(t.A) || usesPrev(t.B)
+	}
+	return false
 }
